@@ -5,7 +5,7 @@
 From Coq Require Import List NArith ZArith.
 From DSD Require Import Base.Str Base.Errors Model.ComplexUtils Model.RegStr Model.Heap Model.Registry
   Proofs.RegistryBasic Proofs.RegHeap Proofs.RegInv Proofs.RegCalls Proofs.RegExt Proofs.RegC04 Proofs.RegStep
-  Proofs.RegC04b Proofs.RegExamples.
+  Proofs.RegC04b Proofs.RegExamples Proofs.RegFull Proofs.RegRelease Proofs.RegInvert Proofs.RegFuel.
 Import ListNotations.
 
 (* CompOK: x and x* (x unstarred) live in one class have equal lengths.  It holds initially ... *)
@@ -94,3 +94,34 @@ Theorem C04_dtype_conflict_no_change : forall fuel ct c st ci name l dtype prefi
   dom_call (S fuel) ct c st name (Some l) prefix dtype = (st, CErr eObjectInit None).
 Proof. exact dtype_conflict_no_change. Qed.
 Print Assumptions C04_dtype_conflict_no_change.
+
+(* ~d is never refused: in every Good state, for a live domain d of positive length whose name has an
+   unstarred, non-empty base, in a non-failing class, ~d returns or creates (with C04_invert_spec: the
+   right object) *)
+Theorem C04_invert_never_refused : forall ct st dst src i ob l ci,
+  Good ct st -> get_root st src = Some i -> live_obj (heap st) i ob -> o_data ob = DDom l ->
+  (0 < l)%Z -> base_unstarred (o_name ob) -> nonempty (cname_of (o_name ob)) = true ->
+  nth_error ct (o_cls ob) = Some ci -> c_fail ci = FNone ->
+  exists o, snd (step ct st (OComplement dst src)) = Returned o \/ snd (step ct st (OComplement dst src)) = Created o.
+Proof. exact invert_never_refused. Qed.
+Print Assumptions C04_invert_never_refused.
+
+(* the guard on the length is necessary: DomainS('a', -3) exists and ~a raises ValueError (len() < 0) *)
+Theorem C04_invert_refused_for_negative_length : ~ invert_never_refused_full.
+Proof. exact invert_never_refused_full_refuted. Qed.
+Print Assumptions C04_invert_refused_for_negative_length.
+
+(* the fuel of the identifiers <-> cls(...) recursion: k trailing stars need fuel k + 3; the fuel 8 used by
+   `step` never runs out for (resolved) names with at most five trailing stars *)
+Theorem C04_no_fuel : forall f ct c st name len prefix dtype k e,
+  (forall ci nm len1, nth_error ct c = Some ci -> resolve_name ct st c ci name prefix = Ok nm ->
+                      dom_len1 ci len dtype = Ok len1 -> need nm len1 <= S f) ->
+  snd (dom_call (S f) ct c st name len prefix dtype) = CErr k e -> k <> eFuel.
+Proof. exact no_fuel. Qed.
+Print Assumptions C04_no_fuel.
+
+Theorem C04_fuel_suffices : forall ct c st name len prefix dtype k e,
+  (forall ci nm, nth_error ct c = Some ci -> resolve_name ct st c ci name prefix = Ok nm -> stars nm <= 5) ->
+  snd (dom_call dom_fuel ct c st name len prefix dtype) = CErr k e -> k <> eFuel.
+Proof. exact fuel_suffices. Qed.
+Print Assumptions C04_fuel_suffices.
